@@ -44,7 +44,7 @@ pub const WORKLOADS: &[Workload] = &[
     w("univ", "ok(251,251)", false, false, false),
     w("term_variables", "ok(511)", false, false, false),
     w("sub_atom", "ok(231,27)", false, false, false),
-    w("freeze", "ok(200)", false, true, false),
+    w("freeze", "ok(60)", false, true, false),
     w("dif", "ok(refused)", false, false, false),
     w("copy_attr", "ok(100)", false, false, false),
     w("phrase", "ok(1500)", false, false, false),
@@ -212,6 +212,18 @@ pub fn panic_loc(p: &str) -> String {
 
 /// Control-state part of the footprint that must be the same on a recovered machine as on a
 /// machine that never saw a fault, after the same sequence of completed queries.
+/// like `control_state` but without the saved-ball stack (a stale saved ball is a leak, not a wrong answer)
+pub fn control_state_no_ball_stack(m: &Machine) -> (String, usize) {
+    let f = m.verif_footprint();
+    (
+        format!(
+            "heap={} stack_top={} tr={} trail_len={} b={} block={} cont_pts={} cwil={} attr_queues={:?}",
+            f.heap_cells, f.stack_top, f.tr, f.trail_len, f.b, f.block, f.cont_pts, f.cwil_depth, f.attr_var_queues
+        ),
+        f.ball_stack,
+    )
+}
+
 pub fn control_state(m: &Machine) -> String {
     let f = m.verif_footprint();
     format!(
